@@ -454,4 +454,28 @@ func (s *SweepingProvider) vanillaProvide(k mh.Multihash, reprovide bool) (bitst
   ghost at call(getSelfAddrs): $addrs = $ret0
   ghost at before call(sendProviderRecords): assert($gerr == nil && $arg1.ID == s.peerid && $arg1.Addrs == $addrs && $arg2 == 1); assert($peers == peers && $arg0 == keysAllocations); assert(all(j, 0, len(peers), has(keysAllocations, peers[j]) && len(keysAllocations[peers[j]]) == 1 && keysAllocations[peers[j]][0] == keys))
   ghost at call(sendProviderRecords): $serr = $ret1; $sent = true
+
+# ---- putting a region on the schedule (C17) ----------------------------------------
+# a region is scheduled at the time computed for ITS prefix; right after a
+# reprovide that time is capped so that the next reprovide is at most
+# interval + maxReprovideDelay away; a prefix already covered by the schedule is
+# left alone; entries it subsumes are removed first
+func (s *SweepingProvider) schedulePrefixNoLock(prefix bitstr.Key, justReprovided bool)
+  props C17
+  ghostvar $t time.Duration = 0
+  ghostvar $cto time.Duration = 0
+  ghostvar $covered bool = true
+  ghostvar $unsub bool = false
+  modifies *
+  # ASSUMED (listed): scheduling runs only in schedule mode (a positive reprovide interval)
+  ghost at entry: assume(s.reprovideInterval > 0 && s.reprovideInterval <= 9223372036854775807)
+  # ASSUMED (listed): the schedule holds the prefix just added, so it has a next leaf
+  ghost at call(NextNonEmptyLeaf): assume($ret0 != nil)
+  ghost at before call(reprovideTimeForPrefix): assert($arg0 == prefix)
+  ghost at call(reprovideTimeForPrefix): $t = $ret0
+  ghost at call(currentTimeOffset)#0: $cto = $ret0
+  ghost at before call(FindPrefixOfKey): assert($arg1 == prefix)
+  ghost at call(FindPrefixOfKey): $covered = $ret1
+  ghost at before call(unscheduleSubsumedPrefixesNoLock): assert($arg0 == prefix && !$covered); $unsub = true
+  ghost at before call(Add): assert(!$covered && $unsub && $arg0 == prefix && $arg1 <= $t && imp(!justReprovided, $arg1 == $t) && imp(justReprovided, $arg1 <= $cto + s.reprovideInterval + s.maxReprovideDelay && ($arg1 == $t || $arg1 == $cto + s.reprovideInterval + s.maxReprovideDelay)))
 @*/
